@@ -457,6 +457,13 @@ func genFiles() [][]byte {
 				}
 				out = append(out, append(g, f[14:]...))
 			}
+			// ... and of 14 bytes whose surplus looks like an empty unknown chunk (if
+			// the skip is given up after an error, what follows still parses)
+			g := append([]byte{}, f[:8]...)
+			g[7] = 14
+			g = append(g, f[8:14]...)
+			g = append(g, 'j', 'u', 'n', 'k', 0, 0, 0, 0)
+			out = append(out, append(g, f[14:]...))
 		}
 		if i%4 == 0 {
 			// the same bytes with a header that declares no track at all, or one too many
